@@ -267,6 +267,15 @@ pub fn panic_key(msg: &str) -> String {
     let loc = msg.rsplit(" @ ").next().unwrap_or("");
     // strip the absolute prefix of the repo so the key is stable
     let loc = loc.trim_start_matches("/repo/");
+    // locations inside dependencies (cargo registry, rustc): keep crate-relative tail only
+    let loc = match loc.find("/src/") {
+        Some(i) if loc.starts_with('/') => {
+            let head = &loc[..i];
+            let krate = head.rsplit('/').next().unwrap_or("");
+            &loc[i - krate.len()..]
+        }
+        _ => loc,
+    };
     // drop line number: a hook commit shifting lines must not change known-finding keys
     let file = loc.rsplit_once(':').map(|x| x.0).unwrap_or(loc);
     let head: String = msg
